@@ -31,6 +31,10 @@ def process(text):
         elif n in SIMPLE and not (n == '0' and text[i + 2:i + 3].isdigit()):
             out.append(SIMPLE[n])
             i += 2
-        else:
+        elif n in 'N01234567U' or n in '\n\r':
             raise ValueError('escape outside the checked subset: \\%s' % n)
+        else:
+            # a backslash that starts no escape (`\\q`, `\\%`, `\\€`): every escape processor leaves both characters as written
+            out.append('\\' + n)
+            i += 2
     return ''.join(out)
